@@ -75,8 +75,9 @@ def check_C01(tier, seed):
         parsecheck.replay(v, exe, res, aspects={"tree", "diag"}, seed=seed,
                           renderings=("canonical", "varied", "fp", "file") if c == "C01_quick.cfg" else ("canonical", "varied"), tag="C01")
     # the same under the ignore-unknown context flag (undeclared items, nested, at every level)
-    res = tlc_parse(v, "ignore_quick.cfg", INV_IGNORE)
-    parsecheck.replay(v, exe, res, aspects={"tree", "diag"}, seed=seed, renderings=("canonical",), tag="C01ign")
+    for c in ("ignore_quick.cfg", "ignore_kv.cfg"):       # (ignore_kv: a free-form section in such a context)
+        res = tlc_parse(v, c, INV_IGNORE)
+        parsecheck.replay(v, exe, res, aspects={"tree", "diag"}, seed=seed, renderings=("canonical",), tag="C01ign")
     # leg B: recorded executions on random schemas with long random texts, validated against the specification
     from . import tracegen
     tracegen.run(v, exe, 120 if tier == "quick" else 2500, seed, tag="C01trace", texts_per=4, calls_per=3)
@@ -292,7 +293,7 @@ def check_C05(tier, seed):
 def check_C03(tier, seed):
     v = Verdict("C03", tier, seed)
     exe = build_driver("asan")
-    run_lex(v, exe, cfgs(tier, ["lex_dq_quick.cfg", "lex_dqesc_quick.cfg", "lex_octal_quick.cfg", "lex_octal6_quick.cfg", "lex_sq_quick.cfg", "lex_comment4_quick.cfg",
+    run_lex(v, exe, cfgs(tier, ["lex_dq_quick.cfg", "lex_dqesc_quick.cfg", "lex_octal_quick.cfg", "lex_octal6_quick.cfg", "lex_lines_quick.cfg", "lex_sq_quick.cfg", "lex_comment4_quick.cfg",
                                 "lex_dqenv_quick.cfg", "lex_env_quick.cfg", "lex_slash_quick.cfg"],
                          ["lex_dq_thorough.cfg", "lex_sq_thorough.cfg", "lex_comment_quick.cfg"]), seed, "C03")
     # strings on the growth steps of the scanner's scratch buffer (lengths the bounded model cannot hold literally)
@@ -356,6 +357,8 @@ def check_C11(tier, seed):
     res = run_tlc("MC_Path.tla", os.path.join("mc", "path_tree.cfg"))
     v.add_tlc("path_tree.cfg", res, INV_PATH)
     pathcheck.replay(v, exe, res, seed=seed, tag="C11", mutate=True)
+    # the same lookups on a context created with the ignore-unknown flag (lookups that fail stay silent there)
+    pathcheck.replay(v, exe, res, seed=seed, tag="C11ign", sigprefix="path-ignore-unknown", ctxflags=256)
     for c in cfgs(tier, ["path_enum_quick.cfg"], ["path_enum_thorough.cfg"]):
         res = run_tlc("MC_Path.tla", os.path.join("mc", c))
         v.add_tlc(c, res, INV_PATH)
@@ -462,10 +465,10 @@ def check_C18(tier, seed):
     from .render import schema_lines as sl
     W = []
     schemas = {}
-    for c in ["api_depth1.cfg", "api_depth1_nopre.cfg"]:
+    for c in ["api_depth1.cfg", "api_depth1_nopre.cfg", "simple_depth1.cfg"]:     # (simple: values in the caller's variables)
         res = tlc_api(v, c)
         W += oomcheck.api_workloads(res, c.split(".")[0])
-        schemas["api"] = sl("S", res.schemas[1])
+        schemas["api" if "simple" not in c else "simple"] = sl("S", res.schemas[1])
     lim = 12 if tier == "quick" else 60
     for c, invs in (("C07_titles.cfg", INV_PARSE[2:]), ("C05_parse_quick.cfg", INV_PARSE), ("callbacks_quick.cfg", INV_CB),
                     ("C01_kvnest.cfg", INV_PARSE)):      # (free-form sections: options created while parsing)
